@@ -77,6 +77,7 @@ type Exec struct {
 	obls     []*Obligation
 	nextCell int
 	nextH    int
+	lgN      int
 	warnings map[string]bool
 	unverified string
 	paths    int
